@@ -174,11 +174,13 @@ def build_pair(case):
     elif fam == "water":
         scale_model(var, case["f"])
         info["factor"] = case["f"]
+        info["path_changes"] = True
     elif fam == "renum":
         maps = {k: {int(a): b for a, b in v.items()} for k, v in case["maps"].items()}
         renumber_model(var, maps)
         info["solmap"] = {v: k for k, v in maps.get("SOLUTION", {}).items()}
         info["mixmap"] = {v: k for k, v in maps.get("MIX", {}).items()}
+        info["mix_sims"] = [i + 1 for i, sim in enumerate(var) if any(b["k"] == "MIX" for b in sim)]
     elif fam == "permb":
         sim = var[case["sim"]]
         var[case["sim"]] = [sim[i] for i in case["perm"]]
@@ -215,6 +217,8 @@ def build_pair(case):
         var[i][j:j + 1] = [{"k": "MIX", "n": 1, "items": [(a, items[a]), (b_, items[b_])]}, {"k": "SAVE", "what": "solution", "n": 4}]
         var.insert(i + 1, [{"k": "MIX", "n": 1, "items": [(4, 1.0), (c, items[c])] if case.get("first", True) else [(c, items[c]), (4, 1.0)]}])
         info["mode"] = "lastrow"
+        info["path_changes"] = True
+        info["diag_only"] = case["base"] != "mixiso"     # see MIXTEMP note
     elif fam == "selfmix":
         # reference: MIX of solution 1 alone with fraction 1
         for model in (ref, var):
@@ -236,6 +240,7 @@ def build_pair(case):
                 var.insert(1, [{"k": "RAW", "text": "COPY solution 1 4"}])
             mix["items"] = [(1, f), (4, 1.0 - f)] if case.get("first", True) else [(4, 1.0 - f), (1, f)]
         info["mode"] = "lastrow"
+        info["path_changes"] = True
     else:
         raise ValueError(fam)
     return ref, var, info
@@ -286,10 +291,14 @@ def run_text(text):
     return res
 
 
-def row_key(row, solmap, mixmap=None):
+def row_key(row, info):
+    """(simulation, state, step, solution number mapped back through the renumbering); batch-reaction rows of a
+    simulation that mixes carry the MIX number instead of a solution number."""
     s = row["soln"]
-    if row["state"] == "i_soln" or row["state"] in ("i_exch", "i_surf", "i_gas", "react"):
-        s = solmap.get(s, s)
+    if row["state"] == "react" and row["sim"] in info.get("mix_sims", ()):
+        s = info.get("mixmap", {}).get(s, s)
+    else:
+        s = info.get("solmap", {}).get(s, s)
     return (row["sim"], row["state"], row["step"], s)
 
 
@@ -313,21 +322,21 @@ def compare(base, ref, var, info):
     mode = info["mode"]
     if mode == "lastrow":
         rr, vr = rr[-1:], vr[-1:]
-        keyf = lambda row, m: ("last",)
+        keyf = lambda row, m: ("last", row["state"], 0, 0)
     else:
         if mode == "skip_sim":
             sk = info["skip"] + 1          # 1-based number of the inserted simulation
             vr = [dict(r, sim=r["sim"] - 1) if r["sim"] > sk else r for r in vr if r["sim"] != sk]
-        keyf = lambda row, m: row_key(row, m)
+        keyf = row_key
     rk = {}
     for r in rr:
         rk.setdefault(keyf(r, {}), []).append(r)
     vk = {}
     for r in vr:
-        vk.setdefault(keyf(r, info["solmap"]), []).append(r)
+        vk.setdefault(keyf(r, info), []).append(r)
     if sorted(rk) != sorted(vk) or any(len(rk[k]) != len(vk[k]) for k in rk):
-        return [], "row sets differ: reference %s, variant %s" % (sorted(rk), sorted(vk))
-    bad = []
+        return [], [], "row sets differ: reference %s, variant %s" % (sorted(rk), sorted(vk))
+    bad, soft = [], []
     f = info["factor"]
     for k in sorted(rk):
         for a, b in zip(rk[k], vk[k]):
@@ -341,26 +350,53 @@ def compare(base, ref, var, info):
                     continue
                 scale = abs(a["mu"] * a["water"] * f) if kind == "xs" else 0.0
                 if not close(x, y, f if kind[0] == "x" else 1.0, scale):
-                    bad.append((h, k, x, y, kind))
-    return bad, None
+                    (soft if "r" in kind and info.get("path_changes") and k[1] == "react" else bad).append((h, k, x, y, kind))
+    return bad, soft, None
+
+
+def obs_group(h):
+    """Which part of the system an observable belongs to (used to keep water-scale fingerprints narrow)."""
+    if h.startswith(("g_", "p_", "gas_")):
+        return "gas"
+    if h.startswith(("k_", "kd_")):
+        return "kinetics"
+    if h.startswith(("eq_", "d_")):
+        return "phases"
+    if h in ("psi", "sigma", "charge") or "Hfo" in h:
+        return "surface"
+    if h.endswith("X") or h.endswith("X2"):
+        return "exchange"
+    return "solution"
+
+
+def unit_class(el, d):
+    """Element + unit kind without the metric prefix (Alkalinity in mol is documented to mean equivalents)."""
+    t = el + ":"
+    if d.get("unit"):
+        pre, base, den = cm.split_unit(d["unit"])
+        if el.lower().startswith("alk") and base == "mol":
+            base = "eq"
+        t += base + "/" + den
+    return t + (" as" if d.get("as") else "") + (" gfw" if d.get("gfw") is not None else "")
 
 
 def fingerprint(case):
     fam = case["fam"]
     b = case["base"]
     if fam == "units":
+        # the conversion of the input happens before any chemistry: the mechanism is (denominator, unit kind, as/gfw),
+        # not the base input
         per = case.get("per", {})
-        if per:
-            parts = []
-            for el in sorted(per):
-                d = per[el]
-                parts.append("%s:%s%s%s" % (el, d.get("unit") or "", " as" if d.get("as") else "", " gfw" if d.get("gfw") is not None else ""))
-            what = "per-element " + ",".join(parts) if len(parts) == 1 else "per-element mixed"
+        if not per:
+            what = "default=%s" % case.get("default")
+        elif len(per) == 1:
+            (el, d), = per.items()
+            what = "per-element " + unit_class(el, d)
         else:
-            what = "default"
-        return "units den=%s default=%s %s%s%s base=%s" % (case.get("den", "kgw"), case.get("default") or "mol", what,
-                                                       " density=%s" % ("calc" if case["density"][1] else "fixed") if case.get("density") else "",
-                                                       " spread" if case.get("spread") else "", b)
+            what = "per-element mixed"
+        return "units den=%s %s%s%s" % (case.get("den", "kgw"), what,
+                                        " density=%s" % ("calc" if case["density"][1] else "fixed") if case.get("density") else "",
+                                        " spread" if case.get("spread") else "")
     if fam == "water":
         return "water-scale base=%s" % b
     if fam == "renum":
@@ -404,7 +440,9 @@ def run_case(case):
                          "reference input completes, the equivalent input fails:\n%s\n--- reference input\n%s--- equivalent input\n%s" % (
                              var["err"][:600], ref_t, var_t)))
     else:
-        bad, structural = compare(case["base"], ref, var, info)
+        bad, soft, structural = compare(case["base"], ref, var, info)
+        for h, k, x, y, kind in soft[:2]:
+            diags.append("redox-derived quantity outside 1e-8 (not claimed, see REDOX): %s %s row %s reference %r equivalent %r" % (fp, h, k, x, y))
         what = None
         if structural:
             what = structural
@@ -415,6 +453,21 @@ def run_case(case):
             for h, k, x, y, kind in bad[:8] + ([worst] if worst not in bad[:8] else []):
                 lines.append("  %-14s row %s  reference %r  equivalent %r  (%s)" % (h, k, x, y, "extensive" if kind[0] == "x" else "intensive"))
             what = "\n".join(lines)
+            if case["fam"] == "water":
+                # part of the system that deviates + size class of the deviation: a wrong factor gives deviations far
+                # above 1e-7, the fixed-volume-gas finding (see report) stays below
+                dev = max(abs(t[2] * (info["factor"] if t[4][0] == "x" else 1.0) - t[3]) / max(abs(t[3]), 1e-300) for t in bad)
+                fp += " failing=%s maxdev%s" % ("+".join(sorted(set(obs_group(t[0]) for t in bad))), "<1e-7" if dev < 1e-7 else ">=1e-7")
+        if what and case["fam"] == "units" and len(case.get("per", {})) > 1 and not case.get("_sub"):
+            # several elements carry their own unit: name the single description that fails on its own, if one does
+            for el in sorted(case["per"]):
+                sub = dict(case, per={el: case["per"][el]}, _sub=True)
+                r = run_case(sub)
+                ops += r["ops"]
+                if r["problems"]:
+                    fp = r["problems"][0][0]
+                    what += "\n(the deviation is reproduced by the description of %s alone)" % el
+                    break
         if what:
             what += "\n--- reference input\n%s--- equivalent input\n%s" % (ref_t, var_t)
             if info["diag_only"]:
@@ -549,8 +602,8 @@ def dup_cases(name, base, tier):
             if b["k"] in ("RAW",):
                 continue
             for w in ("adjacent", "end", "start", "prev_sim"):
-                if w == "prev_sim" and b["k"] in ("USE", "SAVE", "MIX"):
-                    continue     # these are actions, not definitions: repeating them earlier is another calculation
+                if w == "prev_sim" and (b["k"] in ("USE", "SAVE", "MIX") or b.get("equil") is not None):
+                    continue     # actions (not definitions), and definitions that need a solution which does not exist yet
                 out.append({"base": name, "fam": "dup", "sim": i, "blk": j, "where": w})
     return out
 
@@ -581,7 +634,7 @@ def spread_cases(name, base, tier):
 
 def mix_cases(name, base, tier):
     out = []
-    if name != "mix":
+    if name not in ("mix", "mixiso"):
         return out
     for order in itertools.permutations([1, 2, 3]):
         for first in (True, False):
